@@ -1,7 +1,7 @@
 #!/bin/bash
 # usage: seedconfirm.sh <ID> : confirms in /tmp/seed-<ID> that (1) build ok, (2) existing tests pass with the change, (3) demo fails with, passes without
 export GOFLAGS=-mod=mod GOPROXY=off GOSUMDB=off GOTOOLCHAIN=local
-id=$1; wt=/tmp/seed-$id; out=/tmp/seed-out/$id
+id=$1; wt=${2:-/tmp/seed-$id}; out=/tmp/seed-out/$id
 cd $wt || exit 2
 demo_cmd=$(python3 -c "import json;print(json.load(open('$out/meta.json'))['demo_cmd'])")
 demofiles=$(git status --porcelain | grep '^??' | awk '{print $2}' | grep _test.go)
